@@ -66,7 +66,10 @@ func c13Scenario(c *Ctx, idx int, r *Rng, extra func(l, m, cs string)) (mline, m
 	w.git("add", "-A")
 	w.git("commit", "-qm", "attrs")
 	// deep/dir/g.bin: a directory with the excluded directory's name further down — excluded by `dir`, not by `/dir`
-	names := []string{"a.bin", "b.bin", "dir/c.bin", "d.dat", "dir/e.dat", "f.bin", "deep/dir/g.bin"}
+	// plain/notes.txt: a path NO attribute line tracks — whatever is committed there (a sample pointer in the
+	// documentation, a file left over from before LFS) is no business of the pointer check
+	names := []string{"a.bin", "b.bin", "dir/c.bin", "d.dat", "dir/e.dat", "f.bin", "deep/dir/g.bin", "plain/notes.txt"}
+	untrackedPath := func(p string) bool { return p == "plain/notes.txt" }
 	if nested {
 		names = append(names, "sub/deep/x.raw")
 	}
@@ -298,6 +301,7 @@ func c13Scenario(c *Ctx, idx int, r *Rng, extra func(l, m, cs string)) (mline, m
 	}
 	var tracked []trExp
 	seenTr := map[string]bool{}
+	untrackedNoncanon := map[string]bool{} // oids of non-canonical pointers committed at the untracked path
 	baseSnap := map[string]*c13File{}
 	if rangeNew {
 		// A..B: objects = blobs reachable from B and not from A
@@ -328,6 +332,12 @@ func c13Scenario(c *Ctx, idx int, r *Rng, extra func(l, m, cs string)) (mline, m
 				}
 			} else {
 				addRef(f)
+			}
+			if untrackedPath(f.path) {
+				if f.kind == "noncanon" {
+					untrackedNoncanon[f.oid] = true
+				}
+				continue
 			}
 			key := f.kind + ":" + f.path + ":" + f.oid
 			if seenTr[key] {
@@ -454,6 +464,22 @@ func c13Scenario(c *Ctx, idx int, r *Rng, extra func(l, m, cs string)) (mline, m
 	} else if len(ptrLines) > 0 {
 		fail("fsck --objects printed pointer findings", strings.Join(ptrLines, " / "), "")
 	}
+	if pointersOn {
+		for o := range untrackedNoncanon {
+			shared := false
+			for _, t := range tracked {
+				if t.kind == "n" && t.id == o {
+					shared = true
+				}
+			}
+			if !shared && named(ptrLines, o) {
+				fail("fsck --pointers named a file that no attribute line tracks", o[:12]+" (plain/notes.txt) | "+clip(out, 300), "")
+			}
+		}
+		if named(ptrLines, "plain/notes.txt") {
+			fail("fsck --pointers named a file that no attribute line tracks", "plain/notes.txt | "+clip(out, 300), "")
+		}
+	}
 	if expectFail && code == 0 {
 		sig := ""
 		if nested && onlyNestedExpected {
@@ -512,7 +538,7 @@ func c13Scenario(c *Ctx, idx int, r *Rng, extra func(l, m, cs string)) (mline, m
 	// ---- the scan behind the object check (model FsScan): for one commit's tree, in walk order, which
 	// pointer blobs does fsck look at?  Observable on the damaged ones: named or not
 	if objectsOn && revMode != "range" && exclude != "" && !nested {
-		walk := []string{"a.bin", "b.bin", "d.dat", "deep/dir/g.bin", "dir/c.bin", "dir/e.dat", "f.bin"}
+		walk := []string{"a.bin", "b.bin", "d.dat", "deep/dir/g.bin", "dir/c.bin", "dir/e.dat", "f.bin", "plain/notes.txt"}
 		blobIDs := map[string]int{}
 		var ents []string
 		oidOfBlob := map[int]string{}
